@@ -118,7 +118,9 @@ def gen_token(rng):
             data += bytes([b])
         elif r < 0.55:
             cp = rng.choice([0x41, 0xE9, 0x20AC, 0x1F600, 0x10FFFF])
-            s += "\\u{%x}" % cp
+            digits = "%x" % cp
+            # one to six digits: leading zeros up to six are part of the grammar
+            s += "\\u{%s}" % (digits.rjust(rng.randrange(len(digits), 7), "0") if rng.random() < 0.4 else digits)
             data += chr(cp).encode()
         elif r < 0.65:
             ch = rng.choice("é€日")
@@ -212,7 +214,8 @@ def check_sequence(text, expected):
 ILLEGAL = [("@", 110), ("#", 110), ("$", 110), ("~", 110), ("`", 110), ("?", 110), ("é", 110), ("€", 110), ("\x7f", 110),
            ("\x01", 110), ("12q", 141), ("0x1g", 141), ("007", 141), ("1u7", 141), ("340282366920938463463374607431768211456", 140),
            ("0x100000000000000000000000000000000", 140), ("0b1" + "0" * 128, 140), ("0b01" + "0" * 128, 140), ("0x01" + "f" * 32, 140), ('"a\\qb"', 162), ('"\\x1"', 162), ('"\\u{}"', 162), ('"\\u{110000}"', 162),
-           ("'ab'", 163), ("''", 163), ("'€'", 163), ("'\\u{41}'", 162)]
+           ('"\\u{0000041}"', 162), ('"\\u{00010FF}"', 162), ('"\\u{0000000}"', 162), ('"\\u{00000041}"', 162), ('"a\\u{0010FFFF}"', 162),
+           ("'\\u{0000041}'", 162), ("'ab'", 163), ("''", 163), ("'€'", 163), ("'\\u{41}'", 162)]
 
 
 def run_case(case):
